@@ -1,7 +1,7 @@
 (** Correspondence evaluators for C13: run the model on the inputs the
     harness fed to the implementation and compare with what it observed. *)
 From Coq Require Import List NArith ZArith Bool String.
-From Verif Require Import Lib.Bytes Sni.Wire Sni.WireGen Gen.WireSchema.
+From Verif Require Import Lib.Bytes Sni.Wire Sni.WireGenDefs Gen.WireSchema.
 Import ListNotations.
 Local Open Scope N_scope.
 
@@ -45,22 +45,23 @@ Definition alloc_agrees (impl model inlen : N) : bool :=
 Definition err_read_code : N :=
   match assoc_str "errRead" gen_err_codes with Some c => c | None => 0 end.
 
-Definition check_case (c : ccase) : bool :=
+Definition check_case_with (schs : list (string * schema)) (tbl : request_table)
+  (c : ccase) : bool :=
   match c with
   | CEnc name vs expect =>
-      match assoc_str name gen_schemas with
+      match assoc_str name schs with
       | Some sch => kinds_match sch vs && bytes_eqb (enc_schema sch vs) expect
       | None => false
       end
   | CEncReply id typ ec name vs expect =>
-      match assoc_str name gen_schemas with
+      match assoc_str name schs with
       | Some sch =>
           kinds_match sch vs &&
           bytes_eqb (reply_frame id typ ec (enc_schema sch vs)) expect
       | None => false
       end
   | CDec name cap do_end input exp_err exp_count exp_fields impl_alloc =>
-      match assoc_str name gen_schemas with
+      match assoc_str name schs with
       | Some sch =>
           let '(vs, d) := dec_schema gen_alloc_max cap sch (init input) in
           let d := if do_end then d_end d else d in
@@ -70,7 +71,7 @@ Definition check_case (c : ccase) : bool :=
       | None => false
       end
   | CStart input exp_err exp_id exp_typ exp_name exp_fields impl_alloc =>
-      let '(r, d) := start_call gen_alloc_max gen_table input in
+      let '(r, d) := start_call gen_alloc_max tbl input in
       alloc_agrees impl_alloc (alloc d) (lenN input) &&
       match r with
       | CErr e => err_code (Some e) =? exp_err
@@ -89,11 +90,23 @@ Definition check_case (c : ccase) : bool :=
       end
   end.
 
-Fixpoint mismatches_from (i : nat) (cs : list ccase) : list nat :=
+(** Against the layouts and tables of the current source: ties the
+    hand-written primitive layer of the model to the code. *)
+Definition check_case : ccase -> bool := check_case_with gen_schemas gen_table.
+
+(** Against the frozen deployed protocol: a disagreement here is a frame that
+    a peer in the field sends or expects and the current code treats
+    differently. *)
+Definition check_case_deployed : ccase -> bool :=
+  check_case_with deployed_schemas deployed_table.
+
+Fixpoint mismatches_from (f : ccase -> bool) (i : nat) (cs : list ccase) : list nat :=
   match cs with
   | [] => []
-  | c :: r => if check_case c then mismatches_from (S i) r
-              else i :: mismatches_from (S i) r
+  | c :: r => if f c then mismatches_from f (S i) r
+              else i :: mismatches_from f (S i) r
   end.
 
-Definition mismatches (cs : list ccase) : list nat := mismatches_from 0 cs.
+Definition mismatches (cs : list ccase) : list nat := mismatches_from check_case 0 cs.
+Definition mismatches_deployed (cs : list ccase) : list nat :=
+  mismatches_from check_case_deployed 0 cs.
